@@ -260,4 +260,13 @@ _ins("C19", "text", "Tied to the code by",
      "(archive_name_within_buffer), SFileGetFileName writes at most MAX_PATH bytes ending in NUL for a name of any length "
      "(file_name_within_max_path), the find data's name array is filled with exactly 260 bytes ending in NUL with szPlainName inside it "
      "(find_data_within_array). ")
+_ins("C14", "text", "Tied to the code by",
+     "THE WATER CHUNK (Model.C14Water = write_mh2o_chunk's offset bookkeeping): for any entries with any number of layers and any mix of "
+     "exists bitmaps, vertex data and attributes, the regions named by the recorded offsets (instance blocks, bitmaps, vertex blocks, "
+     "attribute blocks) follow one another without gap or overlap from the end of the header table to the end of the chunk, hence are "
+     "pairwise disjoint and inside it (water_offsets_tile); absent parts are recorded as 0 and the layer count is the number of layers "
+     "(water_entry_fields). ")
+_ins("C18", "text", "Tied to the code by",
+     "The fixed-layout payloads (MPHD, MAIN entries, MODF entries) are layouts of the generic record codec: values that fit are read back "
+     "exactly and the record has the chunk's record size (wdt_payload_records_roundtrip). ")
 
